@@ -89,7 +89,7 @@ c47_brief(T, B) :-
     ;   c47_is_chars(T) -> length(T, L), c47_prefix(T, 12, P), B = chars(L, P)
     ;   integer(T) -> B = T
     ;   atom(T) -> B = T
-    ;   is_list(T) -> length(T, L), B = list(L)
+    ;   c47_proper(T) -> length(T, L), B = list(L)
     ;   B = other
     ).
 
@@ -107,3 +107,5 @@ c47_mismatch([A|As], [B|Bs], I, D) :-
 c47_mismatch([], [_|_], I, shorter_file(I)).
 c47_mismatch([_|_], [], I, longer_file(I)).
 c47_mismatch([], [], I, equal(I)).
+
+c47_proper(T) :- '$skip_max_list'(_, _, T, Tail), Tail == [].
